@@ -242,3 +242,54 @@ func H07d_q() {
 		vAssert(len(lib.testCases) == 1, "exactly one permutation exists for the one admitted config case")
 	}
 }
+
+// H07t: the TLS markers of a permutation are those of its config case, also when the test case definition
+// already carries a server certificate or client credentials of its own (the fields are plain request fields,
+// a test file may set them); the permutation is grouped under the server instance of its config case.
+func H07t_q() {
+	vSetEnumLists()
+	s := &conformancev1.TestSuite{Name: "S",
+		RelevantHttpVersions: []conformancev1.HTTPVersion{1},
+		RelevantProtocols:    []conformancev1.Protocol{1},
+		RelevantCodecs:       []conformancev1.Codec{1},
+		RelevantCompressions: []conformancev1.Compression{1},
+	}
+	s.ReliesOnTls, s.ReliesOnTlsClientCerts = vBool("s.tls"), vBool("s.certs")
+	vAssume(s.ReliesOnTls || !s.ReliesOnTlsClientCerts)
+	req := &conformancev1.ClientCompatRequest{TestName: "the-test", StreamType: 1}
+	if vBool("t.staleCert") {
+		req.ServerTlsCert = []byte("stale-cert")
+	}
+	if vBool("t.staleCreds") {
+		req.ClientTlsCreds = &conformancev1.TLSCreds{Cert: []byte("stale-cert"), Key: []byte("stale-key")}
+	}
+	s.TestCases = []*conformancev1.TestCase{{Request: req}}
+	c0 := configCase{Version: 1, Protocol: 1, Codec: 1, Compression: 1, StreamType: 1, UseTLS: vBool("c0.tls"), UseTLSClientCerts: vBool("c0.certs")}
+	vAssume(c0.UseTLS || !c0.UseTLSClientCerts)
+	lib, err := newTestCaseLibrary(map[string]*conformancev1.TestSuite{"f.yaml": s}, []configCase{c0}, conformancev1.TestSuite_TEST_MODE_CLIENT)
+	admitted := (!s.ReliesOnTls || c0.UseTLS) && c0.UseTLSClientCerts == s.ReliesOnTlsClientCerts
+	if !admitted {
+		vAssert(err != nil || len(lib.testCases) == 0, "no permutation exists when the suite's TLS reliance does not admit the config case")
+		return
+	}
+	vAssert(err == nil, "an admitted permutation is expanded without error")
+	if err != nil {
+		return
+	}
+	want := 1
+	vAssert(len(lib.testCases) == want, "a permutation exists exactly when the suite's TLS reliance admits the config case")
+	for _, tc := range lib.testCases {
+		r := tc.Request
+		vAssert((len(r.ServerTlsCert) > 0) == c0.UseTLS && (r.ClientTlsCreds != nil) == c0.UseTLSClientCerts,
+			"the request carries its config case's TLS markers, whatever the test case definition carried")
+	}
+	n := 0
+	for inst, list := range lib.casesByServer {
+		n += len(list)
+		if len(list) > 0 {
+			vAssert(inst.useTLS == c0.UseTLS && inst.useTLSClientCerts == c0.UseTLSClientCerts && inst.protocol == 1 && inst.httpVersion == 1,
+				"the permutation is grouped under the server instance of its config case")
+		}
+	}
+	vAssert(n == want, "each permutation is grouped under exactly one server instance")
+}
